@@ -46,6 +46,7 @@ type SeqResult struct {
 	Violation string
 	Case      interface{}
 	Sample    string
+	Capped    int // executions that hit the step cap (no verdict from them)
 }
 
 // Check is an Engine B property check.
@@ -155,7 +156,7 @@ func RunWorker(id, tier string, shard, nshards int, out string) {
 				}()
 				sc.Seq(&r)
 			}()
-			res.Results = append(res.Results, ScenResult{Name: sc.Name, Execs: r.Cases, States: r.Distinct, Steps: r.Cases, SeqCases: r.Cases,
+			res.Results = append(res.Results, ScenResult{Name: sc.Name, Execs: r.Cases, States: r.Distinct, Steps: r.Cases, SeqCases: r.Cases, Capped: r.Capped,
 				Violation: r.Violation, SeqCase: r.Case, Sample: r.Sample, Outcomes: map[string]int{}})
 			continue
 		}
